@@ -1,6 +1,7 @@
 //! C05 — the token stream tiles the source: emit discipline and table agreement.
 
 use crate::report::Ctx;
+use crate::srcmodel as sm;
 use crate::rules::lexer_rules as lr;
 use crate::tables;
 
@@ -18,4 +19,59 @@ pub fn run(cx: &mut Ctx) {
         Err(e) => cx.anchor_missing("C05.T1", &e),
     }
     crate::rules::c10::full_lexer_confinement(cx, "C05.F1");
+    closing_quote_consumption(cx);
+}
+
+/// C05.S2: seeing the closing quote of a plain (single-quoted) literal consumes nothing further.
+fn closing_quote_consumption(cx: &mut Ctx) {
+    let rule = "C05.S2";
+    cx.rule(rule, "a string token covers its prefix and both quotes and nothing more: in Lexer::lex_string every consuming call (next_char, or a lexer method that calls it) that is evaluated in response to a quote character (`c == quote_char` on its path, as a branch condition or as the left operand of a short-circuit) is evaluated only when `triple_quoted` holds — so after the closing quote of a single-quoted literal no further character can be pulled into the token; at least one such guarded consumption exists (the two extra quotes of a triple-quoted closing)");
+    cx.floor(rule, 1);
+    let Some(lx) = lr::load_lexer(cx, rule) else { return };
+    let Some(f) = lr::lexer_method(&lx, "lex_string") else { return cx.anchor_missing(rule, "lex_string") };
+    // lexer methods that consume (one level)
+    let mut consuming: std::collections::BTreeSet<String> = ["next_char".to_string()].into_iter().collect();
+    for i in lx.impls() {
+        for it in &i.items {
+            if let syn::ImplItem::Fn(m) = it {
+                if sm::tsc(&m.block).contains("self.next_char()") {
+                    consuming.insert(m.sig.ident.to_string());
+                }
+            }
+        }
+    }
+    let norm = |c: &str| -> String {
+        let mut c = c.to_string();
+        while c.starts_with("!!") {
+            c = c[2..].to_string();
+        }
+        c.trim_start_matches('(').trim_end_matches(')').to_string()
+    };
+    let mut guarded = 0;
+    let mut bad: Vec<(String, String, Vec<String>)> = vec![];
+    sm::for_each_expr_with_conds(&f.block, &mut |e, conds| {
+        if let syn::Expr::MethodCall(mc) = e {
+            if sm::tsc(&mc.receiver) == "self" && consuming.contains(&mc.method.to_string()) {
+                let cs: Vec<String> = conds.iter().map(|c| norm(c)).collect();
+                let on_quote = cs.iter().any(|c| c == "c==quote_char" || c == "quote_char==c");
+                if on_quote {
+                    if cs.iter().any(|c| c == "triple_quoted") {
+                        guarded += 1;
+                    } else {
+                        bad.push((sm::tsc(e), lx.loc(e), cs));
+                    }
+                }
+            }
+        }
+    });
+    for (what, loc, cs) in &bad {
+        cx.fail(rule, &format!("{}/unguarded-consumption", rule), loc, &format!("lex_string evaluates `{}` on a quote character without `triple_quoted` on its path (conditions: {:?}): the characters after the closing quote of a single-quoted literal can be pulled into the token", what, cs));
+    }
+    if guarded >= 1 {
+        if bad.is_empty() {
+            cx.ok(rule, &format!("{} consuming call(s) after a quote character, all under `triple_quoted`", guarded));
+        }
+    } else if bad.is_empty() {
+        cx.fail(rule, &format!("{}/no-triple-closing", rule), &lx.loc(f), "lex_string has no consumption of the two further quotes of a triple-quoted closing under `c == quote_char` and `triple_quoted` (fail closed)");
+    }
 }
